@@ -48,19 +48,19 @@ type Set struct {
 }
 
 type Case struct {
-	Nil     bool   `json:"nil,omitempty"`   // nil receiver
+	Nil     bool   `json:"nil,omitempty"` // nil receiver
 	Sets    []Set  `json:"sets"`
-	CtxFlip int    `json:"ctxflip"`         // -1: never done; k: ctx.Err() is non-nil from its k-th call on
+	CtxFlip int    `json:"ctxflip"`          // -1: never done; k: ctx.Err() is non-nil from its k-th call on
 	CtxErr  string `json:"ctxerr,omitempty"` // canceled | deadline
 }
 
 type Scenario struct {
-	ID      string   `json:"id"`
-	Pkg     string   `json:"pkg"`
-	Aux     []string `json:"aux"`     // auxiliary declarations (named types)
-	Imports []string `json:"imports"` // imports needed by aux / field types
-	Structs []Struct `json:"structs"`
-	Grouped bool     `json:"grouped"` // render all structs in one `type ( ... )` group, aux non-struct specs in between
+	ID       string   `json:"id"`
+	Pkg      string   `json:"pkg"`
+	Aux      []string `json:"aux"`     // auxiliary declarations (named types)
+	Imports  []string `json:"imports"` // imports needed by aux / field types
+	Structs  []Struct `json:"structs"`
+	Grouped  bool     `json:"grouped"`  // render all structs in one `type ( ... )` group, aux non-struct specs in between
 	GroupAux []string `json:"groupaux"` // non-struct specs placed between the structs of a group, e.g. "Mid int"
 }
 
